@@ -98,6 +98,8 @@ def main_configs(chk):
     # handshake state, is recycled several times (seeded change C04-1: a recycled PCS keeps me_ready = 1).
     out.append(("tpl-long-recycle", dict(w=256, h=144, n=80, bd=8, content=4, **{E: 8, LP: 4, "cfg.hierarchical_levels": 3, TPL: 1}), "main"))
     out.append(("tpl-m6-10bit", dict(w=192, h=128, n=12, bd=10, content=4, **{E: 6, LP: 4, TPL: 1}), "main"))
+    out.append(("twin-tiles-2col", dict(w=256, h=128, n=24, bd=8, content=3, **{E: 8, LP: 4, "cfg.tile_columns": 1, TPL: 0}), "main"))
+    out.append(("twin-tiles-2x2", dict(w=256, h=256, n=12, bd=8, content=3, **{E: 8, LP: 8, "cfg.tile_columns": 1, "cfg.tile_rows": 1, TPL: 0}), "main"))
     return out
 
 
@@ -273,6 +275,11 @@ def run(chk, only=None):
     # the tpl family goes first and together, so that its encodes overlap (contention)
     configs = [c for c in configs if c[2] == "tpl"] + [c for c in configs if c[2] != "tpl"]
     items = [(name, args, fam, seeds_for(chk, K)) for name, args, fam in configs]
+    # twin tiles: both tile columns carry identical content, so their entropy-coding / filtering tasks finish together; heavy sleeps at
+    # every mutex acquisition then land inside "last one completes the picture" windows (seeded change C04-2: a per-tile done flag set
+    # outside the picture mutex lets two tiles both complete the picture)
+    items = [(n_, a_, f_, ps + (["%d:60:3000" % (chk.rng.below(1 << 30)), "%d:35:8000" % (chk.rng.below(1 << 30))] if n_.startswith("twin-tiles") else []))
+             for n_, a_, f_, ps in items]
     results = C.run_parallel(run_config, items, workers=PAR)
     nrun = 0
     compared = set()
